@@ -53,6 +53,18 @@ functions = [
      'loops': {0: '__CPROVER_assigns(j, __CPROVER_object_whole(self->probability_table_.data))\n__CPROVER_loop_invariant(j <= offset + 1)\n'
                   '__CPROVER_loop_invariant(ghost_sym >= self->num_symbols_ || self->probability_table_.data[ghost_sym] == ((ghost_sym >= (*i_ref) && ghost_sym < (*i_ref) + j) ? 0u : __CPROVER_loop_entry(self->probability_table_.data[ghost_sym < self->num_symbols_ ? ghost_sym : 0])))\n'
                   '__CPROVER_decreases(offset + 1 - j)'}},
+    # probability-table codec, entry by entry: body of the table loop of RAnsSymbolEncoder::EncodeTable and the probability token branch of
+    # RAnsSymbolDecoder::Create's table loop, each as a function of the loop state
+    {'name': 'RSE_EncodeTable_step', 'file': E + 'rans_symbol_encoder.h',
+     'region': r'::EncodeTable\(\s*EncoderBuffer \*buffer\) \{.*?for \(uint32_t i = 0; i < num_symbols_; \+\+i\) \{\n(.*?)\n  \}\n  return true;\n\}', 'region_tail': 'return true;',
+     'sig': 'bool RSE_EncodeTable_step(struct RSE *self, uint32_t *i_ref, struct EncoderBuffer *buffer)',
+     'subst': [(r'(?<![\w>.])probability_table_\[((?:[^\[\]])+)\]\.prob', r'self->probability_table_.data[\1].prob', 0),
+               (r'buffer->Encode\(static_cast<uint8_t>\(((?:[^()]|\((?:[^()]|\([^()]*\))*\))*)\)\)', r'EncoderBuffer_Encode_u8_val(buffer, (uint8_t)(\1))', 0),
+               (r'(?<![\w.>])i\b(?!_ref)', '(*i_ref)', 0)], 'members': ['num_symbols_']},
+    {'name': 'RSD_Create_prob_token', 'file': E + 'rans_symbol_decoder.h',
+     'region': r'i \+= offset;\n\s*\} else \{\n(.*?probability_table_\[i\] = prob;)\n\s*\}', 'region_tail': 'return true;',
+     'sig': 'bool RSD_Create_prob_token(struct RSD *self, uint32_t i, uint8_t prob_data, int token, struct DecoderBuffer *buffer)',
+     'subst': [(r'buffer->Decode\(&eb\)', 'DecoderBuffer_Decode_u8(buffer, &eb)', 0), (r'(?<![\w>.])probability_table_\[', 'self->probability_table_.data[', 0)]},
     # the two symbol loops, over a ghost symbol decoder (its Create / StartDecoding / DecodeSymbol are under contract above and in unit ans)
     {'name': 'DecodeRawSymbolsInternal', 'file': E + 'symbol_decoding.cc',
      'anchor': r'template <class SymbolDecoderT>\s*bool DecodeRawSymbolsInternal\(uint32_t num_values, DecoderBuffer \*src_buffer,\s*uint32_t \*out_values\)\s*\{',
@@ -84,6 +96,7 @@ UNIT = {'name': 'symbols', 'structs': [], 'consts': [
                      'void GSD_ctor(struct GSD *d); bool GSD_Create(struct GSD *d, struct DecoderBuffer *b); uint32_t GSD_num_symbols(const struct GSD *d); bool GSD_StartDecoding(struct GSD *d, struct DecoderBuffer *b);\n'
                      'uint32_t GSD_DecodeSymbol(struct GSD *d); void GSD_EndDecoding(struct GSD *d); void GBITS_Start(struct DecoderBuffer *b); bool GBITS_Decode(struct DecoderBuffer *b, uint32_t nbits, uint32_t *v); void GBITS_End(struct DecoderBuffer *b);',
                      '/* RAnsSymbolDecoder<B>: probability table, symbol count, rANS decoder (precision = ComputeRAnsPrecisionFromUniqueSymbolsBitLength(B) = RANS_P of the job) */\n'
+                     'struct RSE { struct vec_sym probability_table_; uint32_t num_symbols_; };\n'
                      'struct RSD { struct vec_prob probability_table_; uint32_t num_symbols_; struct RAnsDecoder *ans_; /* embedded member modelled as a separately allocated object */ int64_t remaining_at_entry; };']}
 SRC = 'contracts/symbols.c'
 DEFS = ['-DDRACO_BACKWARDS_COMPATIBILITY_SUPPORTED', '-DRANS_P=12']
@@ -109,6 +122,8 @@ J('Create.bounded', 'h_rsd_create', ['C08', 'C02'], defines=DEFS + ['-DCREATE_MA
   unwind_reason='bounded: at most 4 input bytes after the reader position (<= 3 table tokens, zero runs <= 64 symbols each); look-up table builder by contract',
   replace=['RAnsDecoder_rans_build_look_up_table'], timeout=3000, cost=8, cbmc=['--object-bits', '10'], tier='thorough')
 J('Create.zero_run.contract', 'h_enf_RSD_Create_zero_run', ['C08', 'C02', 'C18'], enforce='RSD_Create_zero_run', loops=True)
+J('table.entry.rt', 'h_table_entry_rt', ['C08', 'C05'], unwind=10, unwind_reason='at most 2 extra bytes per probability (22 bits), varint-free; byte appends of the vector model; unwinding assertions on')
+J('table.zero_run.rt', 'h_table_zero_run_rt', ['C08'], unwind=68, unwind_reason='bounded: a table of 66 entries (a zero run covers at most 64); unwinding assertions on', timeout=900, cost=4)
 J('DecodeRawSymbols.contract', 'h_enf_DecodeRawSymbols', ['C08', 'C05', 'C02'], enforce='DecodeRawSymbols', replace=['DecoderBuffer_Decode_u8', 'DecodeRawSymbolsInternal_b'], cbmc=['--object-bits', '10'])
 J('DecodeSymbols.contract', 'h_enf_DecodeSymbols', ['C08', 'C05', 'C02'], enforce='DecodeSymbols', replace=['DecoderBuffer_Decode_u8', 'DecodeRawSymbols', 'DecodeTaggedSymbols_stub'])
 J('StartDecoding', 'h_rsd_start', ['C08', 'C02', 'C18', 'C06'], ignore=[SHL24], unwind=14, unwind_reason='varint recursion <= 11 (uint64); no input-length loop; unwinding assertions on')
